@@ -548,7 +548,26 @@ def gen_pmh(tier, rng):
             for _ in range(reps):
                 flen = 3 if t == FLBA else 0
                 pages, allv = [], []
-                for i in range(n):
+                order = n % 3            # the driver declares this boundary order: 1 ASCENDING, 2 DESCENDING, 0 UNORDERED
+                if order:
+                    # pages REALLY in that order: sorted values cut into consecutive runs (min and max sequences both monotone)
+                    pool_ = sorted({bytes(v) for v in ((rand_value(t, rng, flen, allow_nan=False)[:24] or b"a") for _ in range(3 * n + 8))},
+                                   key=lambda v: key(t, v))
+                    runs, pos_ = [], 0
+                    for i in range(n):
+                        take = rng.choice([1, 1, 2, 3])
+                        runs.append(pool_[pos_:pos_ + take] or [pool_[-1]])
+                        pos_ = min(pos_ + take, len(pool_) - 1)
+                    if order == 2:
+                        runs.reverse()
+                    for data in runs:
+                        if rng.random() < 0.05:
+                            pages.append("%d/-/-/1/-" % rng.choice([1, 4]))      # null pages may sit anywhere
+                            continue
+                        mn, mx = bounds(t, data)
+                        pages.append("%d/%s/%s/0/%s" % (rng.choice([0, 0, 2]), hx(mn), hx(mx), vals_text(data)))
+                        allv += data
+                for i in range(n if not order else 0):
                     if rng.random() < 0.06:
                         pages.append("%d/-/-/1/-" % rng.choice([1, 4]))          # a null page
                         continue
@@ -565,7 +584,10 @@ def gen_pmh(tier, rng):
                     continue
                 w = {INT32: 4, FLOAT: 4, INT64: 8, DOUBLE: 8, INT96: 12}.get(t)
                 qs = []
-                for _ in range(6):
+                srt = sorted(allv, key=lambda v: key(t, v))
+                # ranges outside the first / last page's bounds but inside other pages: the two ends and the middle of the column
+                qs += ["%s/N" % hx(srt[-1]), "N/%s" % hx(srt[0]), "%s/%s" % (hx(srt[len(srt) // 2]), hx(srt[len(srt) // 2]))]
+                for _ in range(5):
                     a, b = rng.choice(allv), rng.choice(allv)
                     if key(t, a) > key(t, b):
                         a, b = b, a
@@ -1117,7 +1139,8 @@ def run_cases(rep, drv, run, cases, what, dist):
         rep.violation("%s: implementation driver died (rc=%s) %s" % (what, pr[1], " ".join(err.split())), {"case": pr[3], "meta": {"kind": what}})
     for pr in p2:
         rep.tie_broken("%s: model runner died (rc=%s): %s" % (what, pr[1], pr[2][-300:]), pr[3])
-    for (li, meta), a, b in zip(cases, impl, model):
+    plain = what.endswith("_plain_allocator")
+    for ci_, ((li, meta), a, b) in enumerate(zip(cases, impl, model)):
         rep.count(li)
         dist[what] = dist.get(what, 0) + 1
         if a == "FAULT died":
@@ -1128,7 +1151,8 @@ def run_cases(rep, drv, run, cases, what, dist):
             verdicts = [("violation", "the driver's answer cannot be interpreted (%s: %s): %s" % (type(ex).__name__, ex, a[:300]))]
         for kind, text in verdicts:
             if kind == "violation":
-                rep.violation(what + ": " + text, {"case": li, "meta": meta, "impl": a[:1500], "model": b[:1500]})
+                extra = {"flavour": "plain", "history": lines[max(0, ci_ - 6):ci_]} if plain else {}
+                rep.violation(what + ": " + text, dict({"case": li, "meta": meta, "impl": a[:1500], "model": b[:1500]}, **extra))
             else:
                 rep.tie_broken(what + ": " + text, {"case": li, "meta": meta})
 
@@ -1163,12 +1187,22 @@ def run(tier):
             cc.append((j["case"], j["meta"]))
         if cc:
             run_cases(rep, drv, run_, cc, "corpus", dist)
+    drv_plain = None
+    try:
+        drv_plain = build_driver("h_stats", flavour="plain")
+    except Exception as e:
+        rep.tie_broken("plain (non-sanitizer) driver does not build: " + str(e)[:300])
     for name, gen in (("builder", gen_bld), ("page_writer", gen_pw), ("reader", gen_rd), ("reader_long_stats", gen_rd_long),
                       ("helpers", gen_helpers), ("page_index_from_pages", gen_pmw), ("page_index_histories", gen_pmh),
                       ("page_index_histories_from_pages", gen_pmw_hist), ("page_index_long_prefixes", gen_pm_prefix),
                       ("offset_index", gen_oix)):
         cases = gen(tier, rng)
         run_cases(rep, drv, run_, cases, name, dist)
+        if drv_plain is not None and name in ("reader", "reader_long_stats"):
+            # the same histories (open file A, query, close, open file B of another type, query the same column index ...) in
+            # one process on the SYSTEM allocator: ASan's quarantine never hands a freed block out again, the plain allocator
+            # does at once, so state that survives a closed reader (keyed by an address) shows up here
+            run_cases(rep, drv_plain, run_, cases, name + "_plain_allocator", dist)
         rep.sample({"op": name, "case": cases[len(cases) // 3][0][:400]})
     fcases = gen_file(tier, rng)
     run_file_cases(rep, drv, run_, fcases, dist)
@@ -1189,9 +1223,13 @@ def replay(path):
         print(json.dumps(j, indent=1)[:3000])
         return 1
     case, meta = r["case"], r.get("meta") or {"kind": r["case"].split()[0]}
-    drv = build_driver("h_stats")
+    drv = build_driver("h_stats", flavour="plain") if r.get("flavour") == "plain" else build_driver("h_stats")
     run_ = build_runner("stats")
-    out, rc, err = vlib.run_lines(drv, [case], timeout=120)
+    if r.get("history"):        # state that survives a closed reader needs the cases before it, in one process
+        hout, rc, err = vlib.run_lines(drv, list(r["history"]) + [case], timeout=300)
+        out = hout[-1:] if len(hout) == len(r["history"]) + 1 else []
+    else:
+        out, rc, err = vlib.run_lines(drv, [case], timeout=120)
     mo, _, _ = vlib.run_lines(run_, [case], timeout=300)
     print("case:", case[:800])
     print("implementation:", (out[0] if out else "")[:1500], "rc", rc)
@@ -1207,7 +1245,7 @@ def replay(path):
             print(kind.upper() + ":", text)
         return 1 if res else 0
     if meta.get("kind") not in ("bld", "pw", "rd", "cmp", "ovl", "pm", "pmw", "pmh", "oix"):
-        meta = dict(meta, kind={"builder": "bld", "page_writer": "pw", "reader": "rd", "reader_long_stats": "rd", "page_index_from_pages": "pmw", "page_index_histories": "pmh", "page_index_histories_from_pages": "pmw", "offset_index": "oix", "page_index_long_prefixes": "pmh"}.get(meta.get("kind"), case.split()[0]))
+        meta = dict(meta, kind={"builder": "bld", "page_writer": "pw", "reader": "rd", "reader_long_stats": "rd", "reader_plain_allocator": "rd", "reader_long_stats_plain_allocator": "rd", "page_index_from_pages": "pmw", "page_index_histories": "pmh", "page_index_histories_from_pages": "pmw", "offset_index": "oix", "page_index_long_prefixes": "pmh"}.get(meta.get("kind"), case.split()[0]))
     try:
         res = judge(case, meta, out[0], mo[0] if mo else "RUNNER-ERROR none")
     except Exception as ex:
